@@ -172,7 +172,7 @@ func arrayExecInsert(ar *Array, values []r.Element) (r.Element, error) {
 	if idx < 0 && len(ar.value)+idx < 0 {
 		return nil, zerr.IndexOutOfRange()
 	}
-	ar.value = insertArrayValue(ar.value, idx, values[0])
+	ar.value = insertArrayValue(ar.value, idx, DuplicateValue(values[0]))
 
 	return ar, nil
 }
@@ -181,7 +181,7 @@ func arrayExecPrepend(ar *Array, values []r.Element) (r.Element, error) {
 	if err := ValidateExactParams(values, "any"); err != nil {
 		return nil, err
 	}
-	ar.value = insertArrayValue(ar.value, 0, values[0])
+	ar.value = insertArrayValue(ar.value, 0, DuplicateValue(values[0]))
 	return ar, nil
 }
 
@@ -189,7 +189,7 @@ func arrayExecAppend(ar *Array, values []r.Element) (r.Element, error) {
 	if err := ValidateExactParams(values, "any"); err != nil {
 		return nil, err
 	}
-	ar.value = insertArrayValue(ar.value, len(ar.value), values[0])
+	ar.value = insertArrayValue(ar.value, len(ar.value), DuplicateValue(values[0]))
 	return ar, nil
 }
 
